@@ -1,5 +1,5 @@
 #!/venv/bin/python
-"""Measure every rule's instance count on the current tree (quick tier) and freeze floors at 90% of it.
+"""Measure every rule's instance count on the current tree (quick tier) and freeze floors at 90% of it (half of it for rules with fewer than 20 instances).
 Run by hand after the counts have been confirmed; never run by a registered check."""
 import json, os, subprocess, sys
 V = os.path.dirname(os.path.dirname(os.path.abspath(__file__)))
@@ -15,6 +15,7 @@ for p in props:
         print(p, "exit", r.returncode, r.stdout[-300:])
         continue
     ev = json.load(open(os.path.join(V, "evidence", p + ".json")))
-    floors[p] = {x["rule"]: int(x["obligations"] * 0.9) for x in ev["coverage"]["rules"]}
+    # 90% of a large family; half of a small one (a handful of instances must not turn a behaviour-preserving edit that removes one into an analysis error)
+    floors[p] = {x["rule"]: (int(x["obligations"] * 0.9) if x["obligations"] >= 20 else (x["obligations"] // 2 if x["obligations"] > 1 else x["obligations"])) for x in ev["coverage"]["rules"]}
     print(p, floors[p])
 json.dump(floors, open(fp, "w"), indent=1, sort_keys=True)
